@@ -9,13 +9,13 @@ T = {}
 def add(pid, level, text, note, technique, ref):
     T[pid] = dict(level=level, text=text, note=note, technique=technique, ref=ref)
 
-add('C01','exploration',"Differential run of the real engine against a map model over generated single-client programs x tiny random configurations x steered/perturbed flusher timing; every read after every commit is compared; each real compaction is additionally judged in situ. Exploration is the right level: the quantifier ranges over inputs x configurations x schedules, which are sampled (thousands of programs), not enumerated.",
+add('C01','exploration',"Differential run of the real engine against a map model over generated single-client programs x tiny random configurations x steered/perturbed flusher timing; every read after every commit is compared; each real compaction is additionally judged in situ. A share of the cases uses the wide configuration range (engine defaults, L0 widths up to 12), a store with a planted history (commit timestamp about to cross 2^16/2^31/2^32/2^53), 64 KiB-1 MiB values; the driver reuses its value buffers after Update returned and re-checks values Get returned earlier. Exploration is the right level: the quantifier ranges over inputs x configurations x schedules, which are sampled (thousands of programs), not enumerated.",
     "Trusts: the 30-line map model, the hook handler (counters/delays only), Go scheduler for background timing. Held on the executions produced, not a proof.","runtime monitoring: reference-model differential over generated programs with injected delays",'DESIGN.md 6 C01')
-add('C02','exploration',"C01 programs with Close/Open cycles at random and targeted positions (after a rotation, with queued flushes, empty memtable, directly after Open), configuration re-drawn per incarnation; read-all after each reopen, then overwrite and read again.",
+add('C02','exploration',"C01 programs with Close/Open cycles at random and targeted positions (after a rotation, with queued flushes, empty memtable, directly after Open), configuration re-drawn per incarnation; read-all after each reopen, then overwrite and read again; every fourth case uses a directory name with unusual characters spelled differently at each Open.",
     "Same-process reopen; cross-process recovery is exercised by the C03 runs. Level geometry fixed per directory as the property states.","runtime monitoring: reference-model differential with reopen steps",'DESIGN.md 6 C02')
-add('C03','fault_enumeration',"Systematic process kill before every mutating file-system operation (hook in wal.go/level.go) of seeded programs, recovery in a fresh process, oracle = acknowledgement log; crash sequences (kill during recovery, again during the second recovery). Every operation index of drained programs is enumerated; free-running programs are sampled schedules.",
+add('C03','fault_enumeration',"Systematic process kill before every mutating file-system operation (hook in wal.go/level.go) of seeded programs, recovery in a fresh process, oracle = acknowledgement log; crash sequences (kill during recovery, again during the second recovery); each recovery is followed in turn by commits+Close, commits+a second crash, an idle Close, an idle crash, and a reader kept open across the first commits. Every operation index of drained programs is enumerated; free-running programs are sampled schedules.",
     "Process-crash model (completed operations persist). Kill points = hooked operations; operations of other goroutines in flight may or may not complete. Exhaustive over N only per program and schedule.","runtime monitoring: fault injection at every file-system operation + recovery oracle over an acknowledgement log",'DESIGN.md 5.5, 6 C03')
-add('C04','fault_enumeration',"Same crash enumeration with programs biased to 3-6-key transactions straddling rotations; rule: keys of the transaction in flight at the kill are all old or all new.",
+add('C04','fault_enumeration',"Same crash enumeration with programs biased to 3-6-key transactions straddling rotations; rules: keys of the transaction in flight at the kill are all old or all new; the last-writer keys of every acknowledged transaction are all visible or all not; programs with 3-6-key, multi-KiB and 260-330-key transactions.",
     "As C03. Atomicity of acknowledged transactions follows from the C03 rule (all writes visible).","runtime monitoring: fault injection at every file-system operation + all-or-nothing rule on the in-flight transaction",'DESIGN.md 6 C04')
 add('C05','exploration',"Exact single-goroutine interleaving driver (every Get predicted by an MVCC model) plus concurrent histories recorded at the client boundary and checked with porcupine against a snapshot-read model (reads at the Begin interval, writes at the Commit interval), with long-lived readers across forced flushes/compactions/version GC.",
     "Unique values make reads identify writes. Checker timeouts are inconclusive. Only schedules the Go scheduler and injected delays produced.","runtime monitoring: exact scripted-interleaving oracle + offline linearizability check (porcupine) of recorded histories",'DESIGN.md 5.3, 5.4, 6 C05')
@@ -25,23 +25,23 @@ add('C07','exploration',"Scripted driver predicts every Commit outcome exactly w
     "Exactness only in the scripted driver; fingerprint collisions excluded by checking the key universe.","runtime monitoring: exact conflict oracle on scripted interleavings + interval rules on recorded histories",'DESIGN.md 5.4, 6 C07')
 add('C08','exploration',"Unique values: no Get (same run, after drains, after reopen) may return a value whose only writer was discarded, refused or failed; exact table of misuse calls and their documented results inside the scripted driver.",
     "As C05.","runtime monitoring: unique-value provenance check over scripted and concurrent histories + misuse table",'DESIGN.md 6 C08')
-add('C09','exploration',"Generated table layouts in a standalone level manager; after every compaction step: directory dump before/after (only versions shadowed at or below the watermark may vanish) and all keys x timestamps >= watermark looked up against a brute-force model; also after recovery. Real compactions inside the C01/C02/C05-C08/C12 workloads are judged by the same oracle through the compaction hook.",
+add('C09','exploration',"Generated table layouts (overlapping and disjoint key windows, L0 widths up to 12) in a standalone level manager; after every compaction step: directory dump before/after (only versions shadowed at or below the watermark may vanish) and all keys x timestamps >= watermark looked up against a brute-force model; also after recovery. Real compactions inside the C01/C02/C05-C08/C12 workloads are judged by the same oracle through the compaction hook.",
     "Watermark driven through a verif accessor on the manager's own oracle. Tables built only the way the engine builds them.","runtime monitoring: before/after differential of real compactions against a brute-force lookup model",'DESIGN.md 6 C09')
-add('C10','exploration',"Exhaustive small universe (3 keys x 3 versions, each absent/table1/table2, block size 1 or large: 39366 layouts x 30 queries, fresh and recovered handles; thorough = all, quick = seeded 1/8) plus random multi-level layouts; oracle = brute-force newest version <= ts.",
+add('C10','exploration',"Exhaustive small universe (3 keys x 3 versions, each absent/table1/table2, block size 1 or large: 39366 layouts x 30 queries, fresh and recovered handles; thorough = all, quick = seeded 1/8) plus random multi-level layouts (a share with a wide L0 and with versions moved up to 2^32, across 2^63, below MaxUint64); oracle = brute-force newest version <= ts.",
     "Exhaustive only for the small universe in the thorough tier; random layouts are sampled.","runtime monitoring: differential of the real lookup path against a brute-force model, small universe enumerated",'DESIGN.md 6 C10')
-add('C11','exploration',"decode(encode(x)) == x for every codec incl. whole tables read back like recovery does and wal sequences, over generated content with boundary lengths (255/256/65535/65536/70000); stability: returned slices cloned at return and re-compared after concurrent encodings; the same under the Go race detector.",
+add('C11','exploration',"decode(encode(x)) == x for every codec incl. whole tables read back like recovery does and wal sequences, over generated content with boundary lengths (255/256/65535/65536/70000/2^20, 16-20 MiB), negative versions; stability: returned slices cloned at return and re-compared after concurrent encodings, a wal shared by concurrent writers and concurrent readers; the same under the Go race detector.",
     "nil == empty for byte strings. Race detector sees executed accesses only.","runtime monitoring: round-trip oracle + buffer-stability monitor + Go race detector",'DESIGN.md 6 C11')
-add('C12','exploration',"Concurrent driver under the Go race detector (small workloads) and without it (larger), thresholds 1-1000 B and every flush-queue length incl. 0, injected delays between critical sections; violations = race reports, panics, any history-checker finding.",
+add('C12','exploration',"Concurrent driver under the Go race detector (small workloads) and without it (larger), thresholds 1-1000 B and every flush-queue length incl. 0, injected delays between critical sections; violations = race reports, panics, any history-checker finding; part of the histories run with a fresh instance of the engine's own logger, with a second busy database in the process, on a store with a planted history, and with misuse calls during concurrent work.",
     "Race detector reports only executed, instrumented accesses; schedules as produced.","Go race detector + panic capture + offline history checks over stress workloads with injected delays",'DESIGN.md 6 C12')
-add('C13','exploration',"Three monitors on pkg/watermark: sequential scripts against a reference model (upper bound, monotone, catches up at quiescent points), concurrent histories checked with porcupine (a DoneUntil read is legal iff <= the logical mark at its linearization point), WaitForMark scenarios (early return, lost wake-up, context errors).",
+add('C13','exploration',"Three monitors on pkg/watermark: sequential scripts against a reference model (upper bound, monotone, catches up at quiescent points), concurrent histories checked with porcupine (a DoneUntil read is legal iff <= the logical mark at its linearization point), WaitForMark scenarios (early return, lost wake-up, context errors, Stop with parked waiters), floods beyond the channel buffer; a share of the cases maps its indices into hostile ranges (jumps to 2^63 and near MaxUint64, strides of 2^40, 2^31/2^32 edges).",
     "Readings of the property text are listed in DESIGN.md section 7. Catch-up decided 20 s after quiescence with the goroutine dump attached.","runtime monitoring: reference-model monitor + porcupine history check + waiter scenarios",'DESIGN.md 6 C13')
 add('C14','fault_enumeration',"On top of the crash enumeration the hook handler tracks every file's fsynced length; at each crash point with unsynced bytes, images with that file cut to every length in [synced, size) (or a boundary set for large gaps) are recovered and judged.",
     "Truncation of unsynced suffixes only; directory operations ordered and durable, as the property states.","runtime monitoring: fault injection (kill + truncation of unsynced tails) + recovery oracle",'DESIGN.md 5.5, 6 C14')
-add('C15','exploration',"Scenario families (writers faster than a slowed flusher with queue 0-3, Begin storms during slowed commits, Close with pending flushes / idle / right after Open, two DBs) under a stuck-state detector: deadlock only if no hook fired between two goroutine dumps and all engine goroutines are parked in the same blocking frames; goroutine census after Close; immediate reopen compared with the writers' last commits.",
+add('C15','exploration',"Scenario families (writers faster than a slowed flusher with queue 0-3, Begin storms during slowed commits, Close with pending flushes / idle / right after Open / with 110-210 transactions still open, two DBs) under a stuck-state detector: deadlock only if no hook fired between two goroutine dumps and all engine goroutines are parked in the same blocking frames; goroutine census after Close; immediate reopen compared with the writers' last commits.",
     "'Bounded time' decided as 'not in a stable blocked state'; starvation without blocking would be inconclusive.","runtime monitoring: stuck-state detector over goroutine dumps + hook activity, goroutine census, reopen differential",'DESIGN.md 5.6, 6 C15')
 add('C16','exploration',"filter.Build over generated sets (1..30000 entries, binary/prefix/hostile keys, many versions of one key): Contains for every member; every table handle's filter after flush, compaction and recovery asked for every entry of its table.",
     "Per-table filters read through a verif accessor.","runtime monitoring: membership oracle over generated sets and live table handles",'DESIGN.md 6 C16')
-add('C17','exploration',"Random operation sequences (Set/Delete/Get/LowerBound/Scan/All) on fresh skiplists (maxLevel 1..16, p 0.01..0.99) compared call by call with a sorted-slice model.",
+add('C17','exploration',"Random operation sequences (Set/Delete/Get/LowerBound/Scan/All) on fresh skiplists (maxLevel 1..16, p 0.01..0.99) compared call by call with a sorted-slice model; every third sequence churns few keys with many successful Deletes so that the list's height shrinks and grows.",
     "Versioned keys only; single goroutine (the memtable serialises access).","runtime monitoring: reference-model differential over generated operation sequences",'DESIGN.md 6 C17')
 
 claimed = sys.argv[1:] if len(sys.argv) > 1 else sorted(T)
